@@ -175,15 +175,16 @@ func specialScenarios() []specialScenario {
 	add("element-that-is-also-a-food", true, bookPlus(absRecipe{"toast", []absIng{{"r1", 1}, {"butter", 0.5}}}, absRecipe{"butter", []absIng{{"fat", 8}}}),
 		logPlus([]absIng{{"toast", 1}, {"butter", 0.25}, {"fat", 1}}, []absIng{{"cal", 2}, {"toast", 2}}))
 	// ---- spellings of a number: the same quantities written with a leading point, a trailing point, a plus sign, an
-	// exponent, trailing zeros, leading zeros (in the log and in the book)
+	// exponent, trailing zeros, leading zeros (in the log and in the book; every product stays a multiple of 1/4, also when
+	// the two uses of the recipe fall into one day)
 	{
 		sp := func(name string, v float64, text string) absIng {
 			i := absIng{name, v}
 			ingText[i] = text
 			return i
 		}
-		add("quantities-spelt-unusually", true, bookPlus(absRecipe{"spelt/recipe", []absIng{sp("cal", 0.5, ".5"), sp("fat", 5, "5."), sp("prot", 4, "+4"), sp("salt", 0.25, "2.5e-1"), sp("fibre", 1.5, "1.50"), sp("sugar", 7, "007")}}),
-			logPlus([]absIng{sp("spelt/leading-point", 0.5, ".5"), sp("spelt/recipe", 2, "2."), sp("spelt/plus", 4, "+4.0")}, []absIng{sp("spelt/exponent", 250, "2.5e2"), sp("spelt/negative-point", -0.5, "-.5"), sp("spelt/recipe", 0.25, ".25"), sp("spelt/zeros", 3, "03.00")}))
+		add("quantities-spelt-unusually", true, bookPlus(absRecipe{"spelt/recipe", []absIng{sp("cal", 0.5, ".5"), sp("fat", 5, "5."), sp("prot", 4, "+4"), sp("salt", 25, "2.5e1"), sp("fibre", 1.5, "1.50"), sp("sugar", 7, "007")}}),
+			logPlus([]absIng{sp("spelt/leading-point", 0.5, ".5"), sp("spelt/recipe", 2, "2."), sp("spelt/plus", 4, "+4.0")}, []absIng{sp("spelt/exponent", 250, "2.5e2"), sp("spelt/negative-point", -0.5, "-.5"), sp("spelt/recipe", 0.5, ".5"), sp("spelt/zeros", 3, "03.00")}))
 	}
 	// ---- names next to other names: an unknown food that differs from recipes of the book only in its last segment (two
 	// equally close recipes of equal length), in case, or by a blank next to a separator; names that begin with = + @
